@@ -161,7 +161,7 @@ type tapWriter3 struct {
 }
 
 func (w *tapWriter3) Write(in []*sdf.Triangle3) error {
-	simcore.Progress.Add(1)
+	simcore.Bump()
 	if len(in) > 0 {
 		simcore.Yield(simcore.Label{Site: SWrite, Job: w.jid, A: w.n})
 		w.n++
@@ -203,7 +203,7 @@ type tapWriter2 struct {
 }
 
 func (w *tapWriter2) Write(in []*sdf.Line2) error {
-	simcore.Progress.Add(1)
+	simcore.Bump()
 	if len(in) > 0 {
 		simcore.Yield(simcore.Label{Site: SWrite, Job: w.jid, A: w.n})
 		w.n++
@@ -282,7 +282,7 @@ func (w *ySDF3) Evaluate(p v3.Vec) float64 {
 	if w.setCtx {
 		old = simcore.SetCtx(simcore.Ctx{Job: w.jid, Sub: h})
 	}
-	simcore.Progress.Add(1)
+	simcore.Bump()
 	simcore.Yield(simcore.Label{Site: SEvalPre, Job: w.jid, A: h})
 	w.slow.tick()
 	d := w.inner.Evaluate(p)
@@ -307,7 +307,7 @@ func (w *ySDF2) Evaluate(p v2.Vec) float64 {
 	if w.setCtx {
 		old = simcore.SetCtx(simcore.Ctx{Job: w.jid, Sub: h})
 	}
-	simcore.Progress.Add(1)
+	simcore.Bump()
 	simcore.Yield(simcore.Label{Site: SEvalPre, Job: w.jid, A: h})
 	w.slow.tick()
 	d := w.inner.Evaluate(p)
